@@ -464,6 +464,6 @@ def replay_override(ctx, test, case):
 
 def tests(tier):
     return [
-        Test("overlap", S_OVER, run_overlap, {"quick": 20000, "thorough": 400000}, CFG),
+        Test("overlap", S_OVER, run_overlap, {"quick": 50000, "thorough": 500000}, CFG),
         Sweep("delta_sweep", sweep_delta, 16, CFG),
     ]
